@@ -151,7 +151,10 @@ def _compare_schemas(src: Any, gen: Any) -> Dict[str, Any]:
             if t["kind"] == "input":
                 t["oneOf"] = False
         out["structure_equal_modulo_oneof"] = sa2 == sb
-    out["type_map_order_equal"] = list(src.type_map) == list(gen.type_map)
+    # graphql-core places the five specified scalars wherever its type collection first meets them; only the order of the
+    # user's types is observable (print_schema does not print the built-ins)
+    out["type_map_order_equal"] = [k for k, t in src.type_map.items() if not c16_ir.is_builtin(t)] == \
+        [k for k, t in gen.type_map.items() if not c16_ir.is_builtin(t)]
     out["directive_order_equal"] = [d.name for d in src.directives] == [d.name for d in gen.directives]
     out["gen_ir"] = sb
     return out
@@ -198,8 +201,10 @@ def run_case(root: Path, case: Dict[str, Any]) -> Dict[str, Any]:
         else:
             src = _load_source(sdl, source)
         out["src_ir"] = c16_ir.schema_to_ir(src)
-    except (AttributeError, ImportError, TypeError) as e:
+    except (AttributeError, ImportError) as e:
         return {"observer_error": "source: %r" % e}
+    except Exception as e:  # noqa: BLE001  (graphql-core cannot introspect a schema whose default value it cannot print)
+        return {"source_unavailable": type(e).__name__}
     # (a) the module AST as generate_schema_module returns it
     try:
         from ariadne_codegen.graphql_schema_generators.schema import (generate_graphql_schema_graphql_file,
@@ -214,6 +219,9 @@ def run_case(root: Path, case: Dict[str, Any]) -> Dict[str, Any]:
             out["ast_ir"] = {"unrecognised": "observer: %r" % e}
         except Exception as e:  # noqa: BLE001
             out["ast_ir"] = {"unrecognised": "generator raised %s" % type(e).__name__}
+    if not is_py and _print(src)[0] is None:
+        # graphql-core itself cannot print this source (list/dict default of a custom scalar): no SDL exists to compare with
+        return {"source_unavailable": "unprintable-for-sdl-target", "src_ir": out["src_ir"]}
     # (b) the written file
     try:
         if case.get("via") == "main":
@@ -277,3 +285,757 @@ def exec_text_case(root: Path, text: str, sv: str, tm: str) -> Dict[str, Any]:
         except c16_ir.Unrecognised as e:
             return {"unserialisable": str(e)}
     return {"err": ex["exc"]}
+
+
+# --------------------------------------------------------------------------------------------
+# driver (own runner: the model echoes arbitrary unicode, and `str.splitlines` would split inside
+# JSON strings at U+2028 / U+0085 / ... which Lean's JSON printer does not escape)
+# --------------------------------------------------------------------------------------------
+
+
+def run_driver(lines: List[Dict[str, Any]], chunk: int = 2000) -> List[Any]:
+    import subprocess
+
+    exe = common.LEAN / ".lake/build/bin" / common.driver_name("C16")
+    if not exe.exists():
+        raise common.Infra(f"driver {exe} not built")
+    out: List[Any] = []
+    for i in range(0, len(lines), chunk):
+        part = lines[i: i + chunk]
+        payload = "".join(json.dumps(l, separators=(",", ":")) + "\n" for l in part).encode("ascii")
+        p = subprocess.run([str(exe)], input=payload, capture_output=True, timeout=1200)
+        if p.returncode != 0:
+            raise common.Infra(f"driver {exe.name} exited {p.returncode}: {p.stderr[-300:]!r}")
+        got = [json.loads(l.decode("utf-8")) for l in p.stdout.split(b"\n") if l.strip()]
+        if len(got) != len(part):
+            raise common.Infra(f"driver {exe.name}: {len(part)} lines in, {len(got)} lines out")
+        out += got
+    for line, o in zip(lines, out):
+        if isinstance(o, dict) and "driver_error" in o:
+            raise common.Infra(f"driver {exe.name} rejected {json.dumps(line)[:200]}: {o['driver_error']}")
+    return out
+
+
+# --------------------------------------------------------------------------------------------
+# case generation
+# --------------------------------------------------------------------------------------------
+
+
+def valid_sdl(sdl: str) -> Optional[str]:
+    """None when graphql-core accepts the schema, else the reason (parent side: graphql-core only)"""
+    from graphql import build_schema, validate_schema
+
+    try:
+        errs = validate_schema(build_schema(sdl))
+    except Exception as e:  # noqa: BLE001
+        return "build: %s" % type(e).__name__
+    return errs[0].message[:80] if errs else None
+
+
+def has_one_of(sdl: str) -> bool:
+    return "@oneOf" in sdl
+
+
+def pick_names(rng: random.Random, region: str) -> Tuple[str, str]:
+    if region == "shadow":
+        return rng.choice(SHADOW_SENSITIVE), rng.choice(PLAIN_NAMES[:4])
+    r = rng.random()
+    if r < 0.45:
+        return "type_map", "schema"
+    if r < 0.6:
+        return rng.choice(SHADOW_HARMLESS), rng.choice(PLAIN_NAMES)
+    if r < 0.7:
+        return rng.choice(PLAIN_NAMES), rng.choice(SHADOW_SENSITIVE + SHADOW_HARMLESS)  # shadowing by the *schema* variable is harmless
+    if r < 0.78:
+        n = rng.choice(PLAIN_NAMES)
+        return n, n  # both names coincide: the module still works, the name ends up bound to the schema
+    tm, sv = rng.sample(PLAIN_NAMES, 2)
+    return tm, sv
+
+
+def make_cases(ctx: Ctx, n_py: int, n_sdl: int, n_region: int, label: str = "cases") -> Tuple[List[Dict[str, Any]], Dict[str, int]]:
+    rng = ctx.sub_rng(label)
+    cases: List[Dict[str, Any]] = []
+    stats: Dict[str, int] = {}
+    attempts = 0
+    want = n_py + n_sdl + n_region
+    while len(cases) < want and attempts < want * 4:
+        attempts += 1
+        idx = len(cases)
+        region = "none"
+        if idx >= n_py + n_sdl:
+            region = "oneOf" if (idx - n_py - n_sdl) % 2 == 0 else "shadow"
+        sdl, feats = c16_gen.make_sdl(rng, one_of=0.6 if region == "oneOf" else 0.0, size=rng.choice([1, 2, 2, 3]))
+        why = valid_sdl(sdl)
+        if why is not None:
+            stats["generator:invalid-schema-dropped"] = stats.get("generator:invalid-schema-dropped", 0) + 1
+            continue
+        if region == "oneOf" and not has_one_of(sdl):
+            continue
+        source = rng.choice(["sdl", "sdl", "introspection-full", "remote"])
+        tm, sv = pick_names(rng, region)
+        case: Dict[str, Any] = {"sdl": sdl, "source": source, "tm": tm, "sv": sv, "region": region, "features": feats}
+        case["via"] = "main" if source in ("sdl", "remote") and rng.random() < 0.7 else "direct"
+        if source == "introspection-full":
+            case["via"] = "direct"
+        if n_py <= idx < n_py + n_sdl:
+            case["file"] = rng.choice(["out.graphql", "out.gql", "out.GQL", "x.py.graphql", "Out.GraphQL"])
+        else:
+            case["file"] = rng.choice(["schema_out.py"] * 6 + ["S.PY", "a.b.Py", "x.graphql.py"])
+        cases.append(case)
+    return cases, stats
+
+
+# --------------------------------------------------------------------------------------------
+# judging a case (parent side)
+# --------------------------------------------------------------------------------------------
+
+
+def case_input(case: Dict[str, Any]) -> Dict[str, Any]:
+    return {k: case[k] for k in ("sdl", "source", "tm", "sv", "via", "file") if k in case}
+
+
+def trigger_of(case: Dict[str, Any], cmp_: Optional[Dict[str, Any]]) -> Optional[str]:
+    if case["tm"] in SHADOW_SENSITIVE:
+        return "trigShadow"
+    if has_one_of(case["sdl"]) and case["source"] != "remote":
+        return "trigOneOf"
+    return None
+
+
+def oracle(case: Dict[str, Any], r: Dict[str, Any]) -> List[Failure]:
+    """the property, judged on the real artefacts only"""
+    inp = case_input(case)
+    fails: List[Failure] = []
+    shadow = case["tm"] in SHADOW_SENSITIVE
+    g = r.get("generation")
+    if g is None:
+        return fails
+    if g["status"] != "ok":
+        fails.append(Failure("generation-" + g["status"], "trigShadow" if shadow else None, inp, json.dumps(g)[:300]))
+        return fails
+    if "sdl_target" in r:
+        t = r["sdl_target"]
+        if r.get("looks_like_python"):
+            fails.append(Failure("wrong-target-format", None, inp, "a .graphql/.gql target received Python text"))
+        if t["src_printable"] and not t["text_equal"]:
+            fails.append(Failure("sdl-file-differs", None, inp, "file text != print_schema(source)"))
+        if "parse_error" in t and t.get("law_holds"):
+            fails.append(Failure("sdl-file-unparsable", None, inp, t["parse_error"]))
+        c = t.get("compare")
+        if c is not None and t.get("law_holds") and not (c["sdl_equal"] and c["structure_equal"]):
+            fails.append(Failure("sdl-file-parses-to-different-schema", None, inp, c.get("structure_diff", c.get("sdl_diff", ""))[:300]))
+        return fails
+    if "unrecognised" not in r.get("file_ir", {}) and not str(r.get("file", "")):
+        pass
+    e = r["exec"]
+    if e["status"] != "ok":
+        fails.append(Failure("module-" + e["status"], "trigShadow" if shadow else None, inp, json.dumps({k: v for k, v in e.items() if k != "schema"})[:300]))
+        return fails
+    if e["sdl_equal"] and e["structure_equal"] and e["type_map_order_equal"] and e["directive_order_equal"]:
+        return fails
+    detail = (e.get("structure_diff") or "") + " | " + (e.get("sdl_diff") or "")
+    if shadow:
+        fails.append(Failure("schema-differs", "trigShadow", inp, detail[:400]))
+    elif has_one_of(case["sdl"]) and e.get("structure_equal_modulo_oneof") and e.get("sdl_equal_modulo_oneof", True) \
+            and e["type_map_order_equal"] and e["directive_order_equal"]:
+        fails.append(Failure("is-one-of-lost", "trigOneOf", inp, detail[:400]))
+    else:
+        sig = "schema-differs" if not e["structure_equal"] else ("sdl-differs" if not e["sdl_equal"] else "order-differs")
+        fails.append(Failure(sig, None, inp, detail[:400]))
+    return fails
+
+
+def _imports_diff(a: List[Dict[str, Any]], b: List[Dict[str, Any]]) -> str:
+    x = {(i["module"], n) for i in a for n in i["names"]}
+    y = {(i["module"], n) for i in b for n in i["names"]}
+    return "only in the file: %r; only in the model: %r" % (sorted(x - y), sorted(y - x))
+
+
+def body_of(m: Dict[str, Any]) -> Dict[str, Any]:
+    return {k: v for k, v in m.items() if k != "imports"}
+
+
+def sort_types(ir: Dict[str, Any]) -> Dict[str, Any]:
+    out = dict(ir)
+    out["types"] = sorted(ir["types"], key=lambda t: t["name"])
+    return out
+
+
+def judge(ctx: Ctx, st: Optional[LeanStatus], cases: List[Dict[str, Any]], results: List[Tuple[str, Any]], res: Result) -> List[Dict[str, Any]]:
+    """oracle on every case; correspondence when the driver is available. Returns the file IRs of clean cases."""
+    use_model = st is not None and st.driver_ok
+    lines: List[Dict[str, Any]] = []
+    slots: List[Tuple[int, str]] = []
+    clean: List[Dict[str, Any]] = []
+    for i, (case, (status, r)) in enumerate(zip(cases, results)):
+        inp = case_input(case)
+        res.count("source:" + case["source"])
+        res.count("via:" + case.get("via", "direct"))
+        res.count("target:" + Path(case.get("file", "x.py")).suffix.lower())
+        res.count("region:" + case.get("region", "none"))
+        if case["tm"] == case["sv"]:
+            res.count("names:coincide")
+        elif case["tm"] in SHADOW_HARMLESS:
+            res.count("names:tm-shadows-harmless-import")
+        elif case["sv"] in SHADOW_SENSITIVE + SHADOW_HARMLESS:
+            res.count("names:sv-shadows-import")
+        for k in case.get("features", {}):
+            res.count("feature:" + k)
+        if status == "timeout":
+            res.count("infra:timeout")
+            continue
+        if status == "exc":
+            cls = r[0]
+            if cls == "IntrospectionError":  # the stub server could not print a default value: no source, no claim
+                res.count("source:remote-unavailable(unprintable default)")
+                continue
+            res.mismatches.append(Mismatch("observer", inp, "observer: %s: %s" % (cls, r[1][:200]), None))
+            continue
+        if "observer_error" in r:
+            res.mismatches.append(Mismatch("observer", inp, "observer: " + r["observer_error"], None))
+            continue
+        if "source_unavailable" in r:
+            res.count("source:unavailable(%s)" % r["source_unavailable"])
+            continue
+        fails = oracle(case, r)
+        res.failures += fails
+        src_ir = r.get("src_ir")
+        nontrivial = src_ir is not None and len(src_ir["types"]) >= 3
+        res.seen([case["sdl"], case["tm"], case["sv"], case["source"], case.get("file")], nontrivial)
+        if src_ir is not None:
+            res.count("size:types", len(src_ir["types"]))
+        if "exec" in r and r["exec"].get("status") == "ok" and not r["exec"].get("src_printable", True):
+            res.count("source:unprintable(structural comparison only)")
+        if not use_model or src_ir is None or "sdl_target" in r or "file_ir" not in r:
+            continue
+        lines.append({"op": "gen", "schema": src_ir, "tm": case["tm"], "sv": case["sv"]})
+        slots.append((i, "gen"))
+        if "unrecognised" not in r["file_ir"]:
+            lines.append({"op": "eval", "module": r["file_ir"], "sv": case["sv"]})
+            slots.append((i, "eval"))
+        if not fails and "unrecognised" not in r["file_ir"] and len(clean) < 40:
+            clean.append({"case": case, "file_ir": r["file_ir"], "src_ir": src_ir})
+    if not lines:
+        return clean
+    outs = run_driver(lines)
+    for (i, kind), o in zip(slots, outs):
+        case, (_, r) = cases[i], results[i]
+        inp = case_input(case)
+        shadow = case["tm"] in SHADOW_SENSITIVE
+        if kind == "gen":
+            m = o["module"]
+            if r.get("ast_ir") != m:
+                res.mismatches.append(Mismatch("gen:generate_schema_module", inp, _first_diff(r.get("ast_ir"), m)[:300] if isinstance(r.get("ast_ir"), dict) and "unrecognised" not in r["ast_ir"] else r.get("ast_ir"), "model module"))
+            f = r["file_ir"]
+            if "unrecognised" in f:
+                res.mismatches.append(Mismatch("gen:file", inp, f, "model module"))
+            else:
+                if body_of(f) != body_of(m):
+                    res.mismatches.append(Mismatch("gen:file-body", inp, _first_diff(body_of(f), body_of(m))[:300], "model module"))
+                if c16_ir.canon_imports(f["imports"]) != c16_ir.canon_imports(o["pruned"]):
+                    res.mismatches.append(Mismatch("gen:file-imports", inp, _imports_diff(f["imports"], o["pruned"]), "model pruned imports",
+                                                   trigger="trigShadow" if shadow else None))
+            # predicates: Lean twins agree with the Python classifiers; sampled schemas are inside `wf`
+            py_oneof = any(t["kind"] == "input" and t["oneOf"] for t in r["src_ir"]["types"])
+            if o["trigOneOf"] != py_oneof or o["trigShadow"] != shadow:
+                res.mismatches.append(Mismatch("trigger-predicates", inp, {"oneOf": py_oneof, "shadow": shadow},
+                                               {"oneOf": o["trigOneOf"], "shadow": o["trigShadow"]}))
+            if not o["wf"]:
+                if c16_ir.schema_defaults_finite(r["src_ir"]):
+                    res.mismatches.append(Mismatch("wf", inp, "valid schema (graphql-core validate_schema) with finite defaults", "wf = false"))
+                else:
+                    res.count("excluded:non-finite-default")
+            else:
+                res.count("inside-wf")
+                expect = "ok-equal" if not (o["trigOneOf"] or o["trigShadow"]) else None
+                if expect is not None and o["roundtrip"] != expect:
+                    res.mismatches.append(Mismatch("theorem-instance schema_roundtrip", inp, "expected ok-equal", o["roundtrip"]))
+                if o["trigOneOf"] and not o["trigShadow"] and o["roundtrip"] != "ok-differs":
+                    res.mismatches.append(Mismatch("theorem-instance eval_gen (oneOf)", inp, "expected ok-differs", o["roundtrip"]))
+                res.count("model-roundtrip:" + o["roundtrip"])
+            if o["final_sv"] != "Ariadne.PySchemaEval.Final.schema":
+                res.mismatches.append(Mismatch("chosen_names_bound", inp, "schema", o["final_sv"]))
+            if len(res.samples) < 3 and not shadow:
+                res.sample({"input": {"tm": case["tm"], "sv": case["sv"], "source": case["source"], "sdl_head": case["sdl"][:160]},
+                            "impl": "file body == model body, %d types" % len(r["src_ir"]["types"]), "model_roundtrip": o["roundtrip"]})
+        else:
+            e = r["exec"]
+            trig = "trigShadow" if shadow else None
+            if "ok" in o:
+                if e.get("status") != "ok":
+                    res.mismatches.append(Mismatch("eval", inp, {"err": e.get("exc")}, "ok", trigger=trig))
+                elif o["ok"] != e["gen_ir"]:
+                    res.mismatches.append(Mismatch("eval", inp, _first_diff(e["gen_ir"], o["ok"])[:300], "model value", trigger=trig))
+                else:
+                    res.count("eval:ok-agree")
+            else:
+                if o["err"] == "unmodelled":
+                    res.count("eval:unmodelled")
+                elif e.get("status") == "ok":
+                    res.mismatches.append(Mismatch("eval", inp, "ok", o, trigger=trig))
+                elif e.get("exc") != o["err"]:
+                    res.mismatches.append(Mismatch("eval", inp, {"err": e.get("exc")}, o, trigger=trig))
+                else:
+                    res.count("eval:error-agree:" + o["err"])
+    return clean
+
+
+# --------------------------------------------------------------------------------------------
+# validation of Spec/PySchemaEval.lean on perturbed modules
+# --------------------------------------------------------------------------------------------
+
+
+def _walk_texprs(m: Dict[str, Any]) -> List[Dict[str, Any]]:
+    """every type-expression node holder {"type": TX} in field / argument positions"""
+    out: List[Dict[str, Any]] = []
+
+    def args(items: Any) -> None:
+        for _, a in items or []:
+            out.append(a)
+
+    for _, t in m["typeMap"]:
+        if t["t"] == "composite" and t["fields"] != "empty":
+            for _, f in t["fields"]["thunk"]:
+                out.append(f)
+                args(f["args"])
+        if t["t"] == "input" and t["fields"] != "empty":
+            args(t["fields"]["thunk"])
+    for d in m["schema"]["directives"]:
+        args(d["args"])
+    return out
+
+
+def perturbations(m: Dict[str, Any], rng: random.Random) -> List[Tuple[str, Dict[str, Any]]]:
+    import copy
+
+    out: List[Tuple[str, Dict[str, Any]]] = []
+
+    def variant(label: str, f: Any) -> None:
+        c = copy.deepcopy(m)
+        try:
+            if f(c) is not False:
+                out.append((label, c))
+        except (IndexError, KeyError, StopIteration, TypeError):
+            pass
+
+    def drop_import(c: Dict[str, Any]) -> Any:
+        names = [(i, n) for i in c["imports"] for n in i["names"]]
+        i, n = rng.choice(names)
+        i["names"].remove(n)
+
+    def dangling_field_ref(c: Dict[str, Any]) -> Any:
+        holders = [h for h in _walk_texprs(c) if "cast" in _innermost(h["type"])]
+        _innermost(rng.choice(holders)["type"])["cast"][3] = "NoSuchType"
+
+    def dangling_root(c: Dict[str, Any]) -> Any:
+        c["schema"]["query"]["cast"][3] = "NoSuchType"
+
+    def swap_wrapper(c: Dict[str, Any]) -> Any:
+        holders = [h for h in _walk_texprs(c) if "call" in h["type"]]
+        t = rng.choice(holders)["type"]
+        t["call"] = "GraphQLList" if t["call"] == "GraphQLNonNull" else "GraphQLNonNull"
+
+    def double_nonnull(c: Dict[str, Any]) -> Any:
+        h = rng.choice(_walk_texprs(c))
+        h["type"] = {"call": "GraphQLNonNull", "arg": {"call": "GraphQLNonNull", "arg": _strip_nonnull(h["type"])}}
+
+    def description_int(c: Dict[str, Any]) -> Any:
+        rng.choice(c["typeMap"])[1]["description"] = {"c": {"i": "5"}}
+
+    def deprecation_bool(c: Dict[str, Any]) -> Any:
+        rng.choice(_walk_texprs(c))["deprecation"] = {"c": {"b": True}}
+
+    def bad_type_name(c: Dict[str, Any]) -> Any:
+        rng.choice(c["typeMap"])[1]["name"] = {"c": {"s": rng.choice(["1abc", "", "a-b", "é"])}}
+
+    def reserved_type_name(c: Dict[str, Any]) -> Any:
+        rng.choice(c["typeMap"])[1]["name"] = {"c": {"s": rng.choice(["String", "__Type", "ID"])}}
+
+    def duplicate_type_name(c: Dict[str, Any]) -> Any:
+        if len(c["typeMap"]) < 2:
+            return False
+        a, b = rng.sample(c["typeMap"], 2)
+        b[1]["name"] = a[1]["name"]
+
+    def bogus_location(c: Dict[str, Any]) -> Any:
+        rng.choice([d for d in c["schema"]["directives"] if d["locations"]])["locations"][0][1] = "NOWHERE"
+
+    def repeatable_none(c: Dict[str, Any]) -> Any:
+        rng.choice(c["schema"]["directives"])["repeatable"] = {"c": None}
+
+    def wrong_arg_class(c: Dict[str, Any]) -> Any:
+        hs = [h for h in _walk_texprs(c) if h["ctor"] in ("GraphQLArgument", "GraphQLInputField")]
+        h = rng.choice(hs)
+        h["ctor"] = "GraphQLInputField" if h["ctor"] == "GraphQLArgument" else "GraphQLArgument"
+
+    def input_type_as_field_type(c: Dict[str, Any]) -> Any:
+        inputs = [k for k, t in c["typeMap"] if t["t"] == "input"]
+        fields = [h for h in _walk_texprs(c) if h["ctor"] == "GraphQLField"]
+        rng.choice(fields)["type"] = {"cast": ["cast", "GraphQLInputObjectType", c["tmName"], rng.choice(inputs)]}
+
+    def object_type_as_arg_type(c: Dict[str, Any]) -> Any:
+        objs = [k for k, t in c["typeMap"] if t["t"] == "composite"]
+        args_ = [h for h in _walk_texprs(c) if h["ctor"] == "GraphQLArgument"]
+        rng.choice(args_)["type"] = {"cast": ["cast", "GraphQLObjectType", c["tmName"], rng.choice(objs)]}
+
+    def object_as_interface_ctor(c: Dict[str, Any]) -> Any:
+        ts = [t for _, t in c["typeMap"] if t["t"] == "composite"]
+        t = rng.choice(ts)
+        t["ctor"] = "GraphQLInterfaceType" if t["ctor"] == "GraphQLObjectType" else "GraphQLObjectType"
+
+    def undefined_as_description(c: Dict[str, Any]) -> Any:
+        rng.choice(_walk_texprs(c))["description"] = {"n": "Undefined"}
+
+    def default_none_vs_undefined(c: Dict[str, Any]) -> Any:
+        hs = [h for h in _walk_texprs(c) if "default" in h]
+        h = rng.choice(hs)
+        h["default"] = {"c": None} if "n" in h["default"] else {"n": "Undefined"}
+
+    def ask_other_variable(c: Dict[str, Any]) -> Any:
+        c["__ask"] = rng.choice([c["tmName"], "nothing_here", "cast"])
+
+    def schema_ctor_wrong(c: Dict[str, Any]) -> Any:
+        c["schema"]["ctor"] = rng.choice(["GraphQLDirective", "cast", c["tmName"]])
+
+    def enum_value_name_bad(c: Dict[str, Any]) -> Any:
+        es = [t for _, t in c["typeMap"] if t["t"] == "enum"]
+        rng.choice(es)["values"][0][0] = rng.choice(["true", "null", "9x"])
+
+    def field_name_bad(c: Dict[str, Any]) -> Any:
+        ts = [t for _, t in c["typeMap"] if t["t"] == "composite" and t["fields"] != "empty"]
+        rng.choice(ts)["fields"]["thunk"][0][0] = "bad-name"
+
+    def interface_list_of_objects(c: Dict[str, Any]) -> Any:
+        ts = [t for _, t in c["typeMap"] if t["t"] == "composite" and t["interfaces"] != "empty"]
+        objs = [k for k, t in c["typeMap"] if t["t"] == "composite" and t["ctor"] == "GraphQLObjectType"]
+        rng.choice(ts)["interfaces"]["keys"][0] = rng.choice(objs)
+
+    def types_of_other_name(c: Dict[str, Any]) -> Any:
+        c["schema"]["typesTm"] = rng.choice(["cast", "GraphQLSchema", "nothing_here"])
+
+    for label, f in list(locals().items()):
+        if callable(f) and label not in ("variant", "copy") and not label.startswith("_"):
+            variant(label, f)
+    return out
+
+
+def _innermost(t: Dict[str, Any]) -> Dict[str, Any]:
+    while "call" in t:
+        t = t["arg"]
+    return t
+
+
+def _strip_nonnull(t: Dict[str, Any]) -> Dict[str, Any]:
+    return t["arg"] if t.get("call") == "GraphQLNonNull" else t
+
+
+def eval_validation(ctx: Ctx, st: Optional[LeanStatus], clean: List[Dict[str, Any]], budget: int, res: Result) -> None:
+    if st is None or not st.driver_ok or not clean:
+        return
+    rng = ctx.sub_rng("perturb")
+    todo: List[Tuple[str, Dict[str, Any], str]] = []
+    for item in clean:
+        for label, m in perturbations(item["file_ir"], rng):
+            ask = m.pop("__ask", m["svName"])
+            todo.append((label, m, ask))
+    rng.shuffle(todo)
+    # keep every perturbation kind represented
+    by_label: Dict[str, List[Any]] = {}
+    for t in todo:
+        by_label.setdefault(t[0], []).append(t)
+    picked: List[Any] = []
+    while len(picked) < budget and any(by_label.values()):
+        for label in sorted(by_label):
+            if by_label[label] and len(picked) < budget:
+                picked.append(by_label[label].pop())
+    texts = [c16_ir.ir_to_py(m) for _, m, _ in picked]
+    real = engine.pmap_forked(exec_text_case, [(t, ask, m["tmName"]) for t, (_, m, ask) in zip(texts, picked)], timeout=60)
+    model = run_driver([{"op": "eval", "module": m, "sv": ask} for _, m, ask in picked])
+    for (label, m, ask), text, (status, r), o in zip(picked, texts, real, model):
+        res.count("perturbation:" + label)
+        inp = {"perturbation": label, "module_text": text[:1500], "ask": ask}
+        if status != "ok":
+            res.count("infra:perturbation-" + status)
+            continue
+        res.evaluations += 1
+        if "unserialisable" in r:
+            res.count("perturbation-result-unserialisable")
+            continue
+        if "err" in o and o["err"] == "unmodelled":
+            res.count("eval:unmodelled")
+            continue
+        if ("ok" in r) != ("ok" in o):
+            res.mismatches.append(Mismatch("eval(perturbed)", inp, r if "err" in r else "ok", o if "err" in o else "ok"))
+        elif "ok" in r:
+            if sort_types(r["ok"]) != sort_types(o["ok"]):
+                res.mismatches.append(Mismatch("eval(perturbed)", inp, _first_diff(sort_types(r["ok"]), sort_types(o["ok"]))[:300], "model value"))
+            else:
+                res.count("eval(perturbed):ok-agree")
+        elif r["err"] != o["err"]:
+            res.mismatches.append(Mismatch("eval(perturbed)", inp, r, o))
+        else:
+            res.count("eval(perturbed):error-agree:" + r["err"])
+
+
+# --------------------------------------------------------------------------------------------
+# target dispatch + identifier validation (settings part)
+# --------------------------------------------------------------------------------------------
+
+SUFFIXES = ["py", "PY", "Py", "graphql", "GRAPHQL", "gql", "Gql", "graphqls", "txt", "json", "pyc", "p y", "pу", "ｐｙ", "", "py ", "graphql.py",
+            "py.gql", "py.txt", "K", "ру"]
+STEMS = ["schema", "s", "", ".", "..", ".hidden", "a.b", "dir.py", "x y", "é", "-", "...", "a."]
+DIRS = ["", "out/", "/abs/path/", "./", "../", "a.py/", "a//b/", "x/./"]
+
+
+def observe_dispatch(path: str) -> Dict[str, Any]:
+    from ariadne_codegen.exceptions import InvalidConfiguration
+    from ariadne_codegen.settings import GraphQLSchemaSettings
+
+    try:
+        s = GraphQLSchemaSettings(schema_path=str(common.REPO / "pyproject.toml"), target_file_path=path)
+    except InvalidConfiguration as e:
+        msg = str(e)
+        return {"err": "missing" if "missing a file type" in msg else ("invalid" if "invalid type" in msg else "other:" + msg[:60])}
+    fmt = s.target_file_format
+    # main.graphql_schema: `if settings.target_file_format == "py": python file  else: graphql file`
+    return {"ok": "py" if fmt == "py" else "sdl", "format": fmt}
+
+
+def dispatch_check(ctx: Ctx, st: Optional[LeanStatus], res: Result) -> None:
+    rng = ctx.sub_rng("dispatch")
+    paths = [d + s + (("." + x) if x != "" or rng.random() < 0.5 else "") for d in DIRS for s in STEMS for x in SUFFIXES]
+    paths += [s for s in ["", ".", "/", "a/", "a/.", "py", ".py", "x.py/", "x.py/."]]
+    rng.shuffle(paths)
+    paths = paths[: ctx.budget(700, len(paths))]
+    try:
+        obs = [observe_dispatch(p) for p in paths]
+    except (AttributeError, ImportError, TypeError) as e:
+        res.mismatches.append(Mismatch("dispatch", "*", "observer: %r" % e, None))
+        return
+    model = run_driver([{"op": "dispatch", "path": p} for p in paths]) if st is not None and st.driver_ok else [None] * len(paths)
+    for p, o, m in zip(paths, obs, model):
+        res.evaluations += 1
+        res.count("dispatch:" + (o.get("ok") or o.get("err")))
+        # oracle: only the three documented suffixes are accepted, py selects the Python emitter
+        name = [c for c in p.split("/") if c and c != "."]
+        last = name[-1] if name else ""
+        i = last.rfind(".")
+        suffix = last[i:] if 0 < i < len(last) - 1 else ""
+        want = {"err": "missing"} if not suffix else ({"ok": "py"} if suffix[1:].lower() == "py" else ({"ok": "sdl"} if suffix[1:].lower() in ("graphql", "gql") else {"err": "invalid"}))
+        if {k: o[k] for k in want} != want:
+            res.failures.append(Failure("target-dispatch", None, {"target_file_path": p}, "settings/main give %r, documented behaviour %r" % (o, want)))
+        if m is not None and m != o:
+            res.mismatches.append(Mismatch("dispatch", {"target_file_path": p}, o, m))
+
+
+def identifier_check(ctx: Ctx, res: Result) -> None:
+    """settings accept exactly the Python identifiers that are not keywords as variable names (detail: C17)"""
+    import keyword
+
+    from ariadne_codegen.exceptions import InvalidConfiguration
+    from ariadne_codegen.settings import GraphQLSchemaSettings
+
+    names = PLAIN_NAMES + SHADOW_SENSITIVE[:4] + list(keyword.kwlist) + ["1a", "", "a b", "a-b", "a.b", "é", "naïve", "𝐱", "a\n", " a", "None", "__"]
+    for n in names:
+        for which in ("schema_variable_name", "type_map_variable_name"):
+            try:
+                GraphQLSchemaSettings(schema_path=str(common.REPO / "pyproject.toml"), target_file_path="s.py", **{which: n})
+                accepted = True
+            except InvalidConfiguration:
+                accepted = False
+            except (AttributeError, TypeError) as e:
+                res.mismatches.append(Mismatch("identifier", n, "observer: %r" % e, None))
+                return
+            res.evaluations += 1
+            want = n.isidentifier() and not keyword.iskeyword(n)
+            res.count("identifier:" + ("accepted" if accepted else "rejected"))
+            if accepted != want:
+                res.failures.append(Failure("identifier-validation", None, {which: n}, "accepted=%s, is a usable identifier=%s" % (accepted, want)))
+
+
+# --------------------------------------------------------------------------------------------
+# the assumed law  eval(repr c) = c  (trusted base; sampled)
+# --------------------------------------------------------------------------------------------
+
+
+def rand_const(rng: random.Random, depth: int = 0) -> Any:
+    r = rng.random()
+    if depth < 3 and r < 0.15:
+        return [rand_const(rng, depth + 1) for _ in range(rng.randint(0, 3))]
+    if depth < 3 and r < 0.3:
+        return {rng.choice(["a", "k", "é", "with space", "", "q\"uote", "'", "\\"]): rand_const(rng, depth + 1) for _ in range(rng.randint(0, 3))}
+    if r < 0.4:
+        return rng.choice([None, True, False])
+    if r < 0.6:
+        return rng.choice([0, 1, -1, 2**31, -(2**63), 2**63, 2**64 + 1, 10**40, -(10**25), rng.randint(-10**6, 10**6)])
+    if r < 0.8:
+        return rng.choice([0.0, -0.0, 1.5, 1e300, 1e-320, 5e-324, 1.7976931348623157e308, 1e16, 1e22, 1e23, 0.1, 2.5e-7, -123456789.12345679,
+                           rng.random() * 10 ** rng.randint(-30, 30)])
+    return rng.choice(c16_gen.STRINGS + ["", "퟿", "\U0010ffff", "a" * 300, "\\x41", "%s" % chr(rng.randint(0, 0x2fff))])
+
+
+def same_const(a: Any, b: Any) -> bool:
+    if type(a) is not type(b):
+        return False
+    if isinstance(a, float):
+        import math
+
+        return a == b and math.copysign(1, a) == math.copysign(1, b)
+    if isinstance(a, list):
+        return len(a) == len(b) and all(same_const(x, y) for x, y in zip(a, b))
+    if isinstance(a, dict):
+        return list(a) == list(b) and all(same_const(a[k], b[k]) for k in a)
+    return a == b
+
+
+def repr_law_check(ctx: Ctx, res: Result) -> None:
+    from black import Mode, format_str
+
+    rng = ctx.sub_rng("repr-law")
+    n = ctx.budget(300, 3000)
+    bad = 0
+    for _ in range(n):
+        c = rand_const(rng)
+        text = ast.unparse(ast.fix_missing_locations(ast.Module(body=[ast.Assign(targets=[ast.Name(id="x", ctx=ast.Store())], value=ast.Constant(value=c))], type_ignores=[])))
+        ns: Dict[str, Any] = {}
+        ns2: Dict[str, Any] = {}
+        try:
+            exec(text, ns)
+            exec(format_str(text, mode=Mode()), ns2)
+            ok = same_const(ns["x"], c) and same_const(ns2["x"], c) and same_const(c16_ir.pyval_to_py(c16_ir.pyval(c)), c)
+        except Exception:  # noqa: BLE001
+            ok = False
+        res.evaluations += 1
+        if not ok:
+            bad += 1
+            res.mismatches.append(Mismatch("assumed law eval(repr c) = c (unparse, black)", {"const": repr(c)[:200]}, "differs", "identity"))
+    res.count("repr-law:samples", n)
+    res.extra["repr_law_failures"] = bad
+
+
+# --------------------------------------------------------------------------------------------
+# corpus, run, search, replay
+# --------------------------------------------------------------------------------------------
+
+
+def corpus_files() -> List[Path]:
+    d = common.CORPUS / "C16"
+    return sorted(d.glob("*.json")) if d.exists() else []
+
+
+def corpus_replay(ctx: Ctx, st: Optional[LeanStatus], res: Result) -> None:
+    files = corpus_files()
+    items = [json.loads(f.read_text()) for f in files]
+    cases = [dict(it["case"], region="corpus") for it in items]
+    results = engine.pmap_forked(run_case, [(c,) for c in cases], timeout=180)
+    findings = {f["id"]: f for f in common.load_findings(ctx.prop)}
+    status: Dict[str, List[bool]] = {}
+    for f, it, case, (stt, r) in zip(files, items, cases, results):
+        res.count("corpus:replayed")
+        if stt != "ok" or "observer_error" in r:
+            res.mismatches.append(Mismatch("observer(corpus)", f.name, "observer: %r" % (r,), None))
+            continue
+        fails = oracle(case, r)
+        fid = it.get("finding")
+        if fid:
+            want = it.get("expect", {})
+            hit = [x for x in fails if x.signature == want.get("signature") and x.trigger == want.get("trigger")]
+            status.setdefault(fid, []).append(bool(hit))
+            fixed = findings.get(fid, {}).get("status") == "fixed"
+            for x in fails:
+                if fixed:
+                    x.trigger = None  # a fixed finding suppresses nothing
+                res.failures.append(x)
+        else:
+            res.failures += fails
+            if it.get("expect_unprintable_source"):
+                e = r.get("exec", {})
+                if e.get("status") == "ok" and e.get("src_printable"):
+                    ctx.notes.append("corpus %s: graphql-core now prints a source schema with a non-finite default" % f.name)
+                res.count("corpus:non-finite-default source unprintable by graphql-core" if not e.get("src_printable", True) else "corpus:non-finite printable")
+    for fid, hits in status.items():
+        res.witness_status[fid] = "reproduces" if any(hits) else "gone"
+    # the corpus also goes through the model (clean cases only matter for the tie)
+    judge(ctx, st, [c for c, it in zip(cases, items) if not it.get("finding") and not it.get("expect_unprintable_source")],
+          [r for r, it in zip(results, items) if not it.get("finding") and not it.get("expect_unprintable_source")], Result())
+
+
+def run(ctx: Ctx, st: Optional[LeanStatus]) -> Result:
+    res = Result()
+    res.rule = ("seeded type-directed schemas (harness/c16_gen.py; graphql-core validate_schema filters) x source kind (SDL via "
+                "main.graphql_schema, full introspection, remote path with stubbed httpx.post) x variable names x target suffix; "
+                "a case is non-trivial when the source has >= 3 user types; distinct = distinct (SDL, names, source, target)")
+    res.extra["fingerprints"] = common.fingerprints(ctx, fingerprint_items())
+    corpus_replay(ctx, st, res)
+    cases, stats = make_cases(ctx, ctx.budget(56, 560), ctx.budget(12, 100), ctx.budget(10, 80))
+    for k, v in stats.items():
+        res.count(k, v)
+    results = engine.pmap_forked(run_case, [(c,) for c in cases], timeout=240)
+    clean = judge(ctx, st, cases, results, res)
+    ctx.log(f"{len(cases)} generated cases judged: {len(res.failures)} oracle failures, {len(res.mismatches)} mismatches")
+    eval_validation(ctx, st, clean[: ctx.budget(6, 30)], ctx.budget(100, 900), res)
+    dispatch_check(ctx, st, res)
+    identifier_check(ctx, res)
+    repr_law_check(ctx, res)
+    res.oracle_only += [
+        "that the emitted text is valid, importable Python after autoflake/isort/black (exec of the real file)",
+        "graphql-core's type collection reproducing the source type_map order (compared on the real objects)",
+        ".graphql/.gql target: parse(print S) = S is graphql-core's law; checked on the real file, not modelled",
+        "identifier validation of the two variable names (settings; detail belongs to C17)",
+    ]
+    res.assumptions += [
+        "eval(repr c) = c for None/bool/int/finite float/str/list/dict through ast.unparse and black (sampled every run)",
+        "autoflake removes exactly the unused imports; isort/black preserve the AST (compared on every emitted file)",
+        "Spec/PySchemaEval.lean describes CPython 3.12 + graphql-core %s for modules of the emitted shape (validated on real and perturbed modules every run)" % _gql_version(),
+        "non-finite float defaults are outside the claim (graphql-core cannot print such a source schema; corpus case)",
+    ]
+    return res
+
+
+def _gql_version() -> str:
+    try:
+        import graphql
+
+        return graphql.version
+    except Exception:  # noqa: BLE001
+        return "?"
+
+
+def search(ctx: Ctx) -> Result:
+    """after a broken proof / correspondence: judge the real code alone with a large budget"""
+    res = Result()
+    cases, _ = make_cases(ctx, 420, 60, 0, label="search")
+    for c in cases:  # the search looks for failures OUTSIDE the known regions
+        if c["tm"] in SHADOW_SENSITIVE:
+            c["tm"] = "type_map"
+    results = engine.pmap_forked(run_case, [(c,) for c in cases], timeout=240)
+    judge(ctx, None, cases, results, res)
+    dispatch_check(ctx, None, res)
+    identifier_check(ctx, res)
+    res.mismatches = []  # the search reports property failures only
+    return res
+
+
+def replay(ctx: Ctx, payload: Dict[str, Any]) -> int:
+    inp = payload.get("input")
+    if not isinstance(inp, dict):
+        print(json.dumps(payload, indent=1)[:3000])
+        return 1
+    if "target_file_path" in inp:
+        o = observe_dispatch(inp["target_file_path"])
+        print("settings/main dispatch for %r -> %r" % (inp["target_file_path"], o))
+        return 1
+    if "sdl" not in inp:
+        print(json.dumps(inp)[:2000])
+        return 1
+    status, r = engine.forked(run_case, inp, timeout=240)
+    if status != "ok":
+        print(status, r)
+        return 2
+    fails = oracle(inp, r)
+    for f in fails:
+        print("FAIL %s trigger=%s: %s" % (f.signature, f.trigger, f.detail[:600]))
+    if not fails:
+        print("ok: the generated module reproduces the schema for this input")
+    return 1 if fails else 0
